@@ -90,6 +90,10 @@ pub struct Program {
     pub extra_holders: usize,
     /// an `Arc<LeanString>` is shared by reference between all threads (the `Sync` clause)
     pub shared_ref: bool,
+    /// the handle shared by reference is the *only* handle of its buffer when the threads start
+    /// (reference count exactly 1): every party makes its own handle by cloning through `&`
+    #[serde(default)]
+    pub shared_only: bool,
     pub threads: Vec<ThreadProg>,
     pub main_ops: Vec<TOp>,
     /// global ordinals of alloc/realloc requests that return null (schedsim only)
@@ -252,13 +256,14 @@ pub fn gen_program(seed: u64, index: u64, faults: bool) -> Program {
         5..=7 => 3,
         _ => 4 + rng.below(2),
     };
-    let shared_ref = rng.chance(1, 4);
+    let shared_only = rng.chance(1, 8);
+    let shared_ref = shared_only || rng.chance(1, 4);
     // main's root + one per thread (+1 for the Arc) + extras = holders (at least)
     let base = 1 + n_threads + shared_ref as usize;
-    let extra_holders = holders.max(base) - base;
+    let extra_holders = if shared_only { 0 } else { holders.max(base) - base };
     let mut threads = Vec::new();
     for t in 0..n_threads {
-        let from_shared = shared_ref && rng.chance(1, 3);
+        let from_shared = shared_only || (shared_ref && rng.chance(1, 3));
         let pre_truncate = if !from_shared && rng.chance(1, 4) { Some(boundary(rng, &text, true)) } else { None };
         let start = match pre_truncate {
             Some(n) => text[..n].to_string(),
@@ -271,7 +276,7 @@ pub fn gen_program(seed: u64, index: u64, faults: bool) -> Program {
     }
     // main: root in local 0, extras behind it; biased to dropping what it holds (so that exactly
     // the spawned threads own the buffer) or mutating its own handle
-    let mut models: Vec<Option<String>> = (0..1 + extra_holders).map(|_| Some(text.clone())).collect();
+    let mut models: Vec<Option<String>> = if shared_only { Vec::new() } else { (0..1 + extra_holders).map(|_| Some(text.clone())).collect() };
     let mut main_ops = Vec::new();
     let n_main = rng.range(0, 4);
     {
@@ -289,7 +294,7 @@ pub fn gen_program(seed: u64, index: u64, faults: bool) -> Program {
         }
     }
     let fail_req = if faults && rng.chance(1, 2) { vec![rng.below(6) as u64] } else { Vec::new() };
-    Program { text, init, extra_holders, shared_ref, threads, main_ops, fail_req }
+    Program { text, init, extra_holders, shared_ref, shared_only, threads, main_ops, fail_req }
 }
 
 // ------------------------------------------------------------------------------------------------
@@ -643,16 +648,24 @@ pub fn execute(prog: &Arc<Program>) {
     *FAILURES_SEEN.lock().unwrap_or_else(|e| e.into_inner()) = 0;
     let root = make_root(prog);
     let text = prog.text.clone();
+    let only = prog.shared_only && prog.shared_ref;
     let shared = if prog.shared_ref { Some(Arc::new(root.clone())) } else { None };
+    let root = if only {
+        // (shadowing alone would keep the original alive until the end of this function)
+        drop(root);
+        None
+    } else {
+        Some(root)
+    };
     let mut main = Party { id: 0, locals: vec![], models: vec![], shared: shared.clone(), shared_text: text.clone() };
     let mut handles = Vec::new();
     // prepare every thread's handle before any thread starts, then spawn
     let mut prepared = Vec::new();
     for (t, tp) in prog.threads.iter().enumerate() {
-        let (l, m) = if tp.from_shared && shared.is_some() {
+        let (l, m) = if (tp.from_shared || only) && shared.is_some() {
             (None, None)
         } else {
-            let mut c = root.clone();
+            let mut c = root.as_ref().unwrap().clone();
             let mut m = text.clone();
             if let Some(n) = tp.pre_truncate {
                 if n <= m.len() && m.is_char_boundary(n) {
@@ -664,9 +677,11 @@ pub fn execute(prog: &Arc<Program>) {
         };
         prepared.push((t, l, m));
     }
-    main.locals.push(Some(root));
-    main.models.push(Some(text.clone()));
-    for _ in 0..prog.extra_holders {
+    if let Some(root) = root {
+        main.locals.push(Some(root));
+        main.models.push(Some(text.clone()));
+    }
+    for _ in 0..(if only { 0 } else { prog.extra_holders }) {
         let c = main.locals[0].as_ref().unwrap().clone();
         main.locals.push(Some(c));
         main.models.push(Some(text.clone()));
